@@ -27,6 +27,23 @@ CHECKS = {
         "text": "Differential exploration on generated DAGs and tables: whenever the Polars executor (eager or lazy) returns, its column set and row multiset must equal the Pandas result, and eager must equal lazy; a raising Polars run is allowed by the property and is counted per (exception type, innermost data_algebra frame). Evidence reports the returned/raised ratio.",
         "note": "Trusted: Pandas executor as reference side (its own recorded finding, null join keys, is closed by flag), vp.cmp, vp.schema. polars 1.44 lacks several old-API methods (cumsum...), so ordered windows mostly raise and are down-weighted, not removed.",
     },
+    "C05": {
+        "engine": "sqlite-surrogate",
+        "technique": "exhaustive enumeration of (catalogue row x backend) cells, each driven by a small Hypothesis campaign against reference functions written from the docstrings",
+        "text": "All 124 catalogue rows are enumerated (107 checkable: date/time, random and one undocumented row are listed as not checked); for Pandas, SQLite where the catalogue says 'y', the PostgreSQL dialect on the SQLite surrogate, and Polars eager (raising allowed) every cell gets generated argument frames with forced special classes (null, NaN/inf where documented, zero, negatives, domain boundaries, ties, empty string, all-null, single row) and is compared with a reference function per method; failures are collected per cell, never stop-at-first.",
+        "note": "Trusted: the reference table vp/methods.py (numpy / docstring semantics; acceptable sets where the documentation leaves a choice), vp.cmp. Null operands are generated only where a docstring states a null rule; comparisons/logic/concat never get nulls (documented caveat). PostgreSQL cells run on the SQLite surrogate with the library's SQLite helper functions.",
+    },
+    "C08": {
+        "engine": "sqlite-surrogate",
+        "technique": "property-based testing with a validity predicate: returned column set (and order after select_columns) equals the declared columns on five executors",
+        "text": "Generated DAGs biased to column-changing steps, empty inputs, projects and windows are run on Pandas, Polars eager+lazy, SQLite SQL and PostgreSQL-dialect SQL (surrogate); each returned frame must have exactly set(ops.column_names), no duplicates, and the select_columns order where that is the last column-defining step.",
+        "note": "Trusted: nothing beyond the engines themselves (the oracle is the pipeline's own declaration). An engine that raises contributes nothing here (judged by C01/C03). PostgreSQL via the SQLite surrogate.",
+    },
+    "C10": {
+        "technique": "metamorphic property-based testing: perturb unreported input columns; rebuild the pipeline narrowed to the reported columns (independent spec-level liveness analysis)",
+        "text": "For generated DAGs, columns that columns_used() does not report are overwritten with fresh values and with nulls: the Pandas and the SQLite result must not change. The program is then rebuilt from its spec with tables restricted to the reported columns (dead assignments removed by an independent liveness analysis, pure column lists trimmed) and must build and give the same result. columns_used() must also be a subset of the declared columns, repeatable and unchanged by to_sql().",
+        "note": "Trusted: the spec-level liveness analysis in vp/checks/c10.py (an independent model of which columns matter), vp.cmp. Programs containing convert_records are perturbed but not narrowed.",
+    },
     "C13": {
         "technique": "grammar-based property testing: generated expression texts evaluated by the DSL vs CPython eval on a common domain, plus print/parse round trip",
         "text": "Expression texts are built by construction from a typed, layered grammar mirroring Python's precedence levels (or/and/not/comparisons incl. chains/+ -/* / // %/unary/**/atoms, redundant parentheses, whitespace, method calls); each accepted text is evaluated through extend() on an 8-row frame and compared row-wise with CPython's eval wherever both define the operators identically; the parsed tree must survive print -> parse with is_equal and identical text.",
@@ -37,6 +54,32 @@ CHECKS = {
         "technique": "metamorphic property-based testing: the same generated pipeline under every SQLFormatOptions / extend-merge / dialect variant must return the same table",
         "text": "Metamorphic exploration: generated DAGs biased to shared sub-pipelines under two consumers and chains of extends are translated under 16 (quick) or 288 (thorough) variants of use_with x use_cte_elim x annotate x initial_commas x sql_indent x allow_extend_merges x {SQLite, SQLite with CTE elimination enabled, PostgreSQL dialect}; every variant is executed on SQLite and compared with the un-optimised baseline of its dialect and across dialects; to_sql must also be repeatable. Evidence counts how often CTE elimination / SQL-level merging actually fired.",
         "note": "Trusted: SQLite 3.40 as executor of all three dialect configurations (PostgreSQL text on a surrogate), vp.cmp. FULL joins on nullable keys are excluded while finding F14 (SQLite FULL join emulation) is open.",
+    },
+    "C14": {
+        "engine": "sqlite-surrogate",
+        "technique": "property-based fuzzing of 38 text positions x 5 dialects: execution round trip on SQLite + dialect tokenisers compared token-by-token with a placeholder query",
+        "text": "Hostile strings (quotes, backslashes, comment markers, line breaks, percent signs, unicode, emoji) are placed at 19 positions where user text enters SQL (literals, is_in/mapv/coalesce arguments, column/table names, concat_rows labels and id column, record-map entries/keys), each with and without annotation comments, for the SQLite, PostgreSQL, BigQuery, Spark and MySQL dialects. SQLite and PostgreSQL text is executed (value/name must read back exactly, nothing else may change); all dialects are tokenised by dialect-specific lexers and the token skeleton must equal that of a harmless placeholder. Thorough tier adds a real local Spark engine.",
+        "note": "Trusted: the four tokenisers in vp/lexers.py (self-tested on hand-written samples; the Spark one cross-validated against Spark 4.2), SQLite as executor (PostgreSQL text on the surrogate). BigQuery/MySQL verdicts rest on the tokenisers only. Names containing the dialect's identifier quote are a documented precondition (clean rejection accepted).",
+    },
+    "C15": {
+        "technique": "metamorphic property-based testing: injective renaming of all table/column names into internal scratch names harvested from the sources, SQL keywords, spaced names",
+        "text": "Each generated DAG is evaluated as is and after renaming every table and column (incl. created columns and record-map columns) into a pool dominated by names the executors / SQL generator use internally (harvested from the source files at run time, plus '<column><join suffix>' collisions), SQL keywords, mixed case and names with spaces; on Pandas, Polars and SQLite the result must be the renamed original result, and nothing may fail only after renaming. Names listed in three recorded findings are excluded per engine by construction.",
+        "note": "Trusted: the spec-level renamer in vp/checks/c15.py. Each engine is compared with itself. Names never contain identifier quote characters and differ by more than letter case (SQLite identifiers are case-insensitive).",
+    },
+    "C17": {
+        "technique": "round-trip and algebraic-law property testing of record maps on Pandas and Polars (inverse, compose, pipeline step, engine agreement)",
+        "text": "Generated strict control tables (1-2 key columns, 1-3 value columns, 2-4 rows), record keys and complete-block data are transformed to the other form and back with inverse(), composed with further maps (compose / >>) and compared with sequential application, run as a convert_records pipeline step, and run on Polars; every result must agree (column set + row multiset).",
+        "note": "Trusted: vp.cmp and the harness-side construction of 'the other form'. compose() rejections are allowed and counted; null cell values run in a separate counted-only campaign (undocumented).",
+    },
+    "C18": {
+        "technique": "metamorphic property-based testing (row permutations, non-default Pandas indexes) + sortedness / limit-prefix validity predicates",
+        "text": "Generated DAGs with totalised window orders are evaluated on the original input and on a row-permuted, re-indexed copy (shuffled ints, string labels, duplicate labels, descending) on Pandas, Polars and SQLite: the multiset of rows must not change. A final order_rows is checked with a sortedness predicate (NULL placement not judged) and, with limit, against the un-limited program: right count, sub-multiset, no excluded row strictly before an included one.",
+        "note": "Trusted: vp.cmp order predicates; the generator's key tracking that makes window orders total. Each engine is compared with itself.",
+    },
+    "C19": {
+        "technique": "property-based testing with deep before/after snapshots of caller frames and exact repeat-evaluation comparison over all entry points",
+        "text": "Generated DAGs are evaluated on Pandas frames with non-default indexes and on Polars frames through eval / transform / >> / act_on / DataOpArrow.transform / ex; every input frame is snapshotted (values, dtypes, columns, index incl. type and name; Polars schema + rows) before and after, with pandas.testing.assert_frame_equal as second opinion, and a second evaluation must give the same table.",
+        "note": "Trusted: the snapshot functions. Repeatability is compared as a multiset unless the pipeline ends in order_rows (relational results have no row order; Polars group_by order varies between runs).",
     },
     "C20": {
         "engine": "hypothesis-stateful",
